@@ -744,25 +744,25 @@ func init() {
 		return nil
 	})
 	// atomic.Pointer[T]: struct{ _ [0]*T; _ noCopy; v unsafe.Pointer } -> keep the *value in field 2
-	reg("(*sync/atomic.Pointer).Load", func(m *Machine, fr *frame, fn *ssa.Function, args []value) value {
+	reg("(*sync/atomic.Pointer[T]).Load", func(m *Machine, fr *frame, fn *ssa.Function, args []value) value {
 		st := (*args[0].(*value)).(structure)
 		if p, ok := st[len(st)-1].(*value); ok {
 			return p
 		}
 		return (*value)(nil)
 	})
-	reg("(*sync/atomic.Pointer).Store", func(m *Machine, fr *frame, fn *ssa.Function, args []value) value {
+	reg("(*sync/atomic.Pointer[T]).Store", func(m *Machine, fr *frame, fn *ssa.Function, args []value) value {
 		st := (*args[0].(*value)).(structure)
 		st[len(st)-1] = args[1]
 		return nil
 	})
-	reg("(*sync/atomic.Pointer).Swap", func(m *Machine, fr *frame, fn *ssa.Function, args []value) value {
+	reg("(*sync/atomic.Pointer[T]).Swap", func(m *Machine, fr *frame, fn *ssa.Function, args []value) value {
 		st := (*args[0].(*value)).(structure)
 		old, _ := st[len(st)-1].(*value)
 		st[len(st)-1] = args[1]
 		return old
 	})
-	reg("(*sync/atomic.Pointer).CompareAndSwap", func(m *Machine, fr *frame, fn *ssa.Function, args []value) value {
+	reg("(*sync/atomic.Pointer[T]).CompareAndSwap", func(m *Machine, fr *frame, fn *ssa.Function, args []value) value {
 		st := (*args[0].(*value)).(structure)
 		cur, _ := st[len(st)-1].(*value)
 		if cur == args[1].(*value) {
